@@ -94,6 +94,9 @@ def datetimes(tier):
                     continue
                 out.append(d)
     out += [datetime.datetime(1, 1, 1, tzinfo=UTC), datetime.datetime(9999, 12, 31, 23, 59, 59, 999999, tzinfo=UTC)]
+    # valid aware datetimes whose UTC equivalent lies outside 0001..9999 (Python compares / subtracts them without converting)
+    out += [datetime.datetime(1, 1, 1, 0, 0, tzinfo=tz(300)), datetime.datetime(1, 1, 1, 0, 30, tzinfo=tz(60)),
+            datetime.datetime(9999, 12, 31, 23, 59, 59, tzinfo=tz(-1)), datetime.datetime(9999, 12, 31, 12, 0, 0, 1, tzinfo=tz(-720))]
     return out
 
 
